@@ -246,6 +246,9 @@ func isSignedInt(t types.Type) bool {
 
 func typeKey(t types.Type) string {
 	s := types.TypeString(t, func(p *types.Package) string { return p.Name() })
+	// "<-chan T" and "[]chan T" must not collide after sanitising
+	s = strings.ReplaceAll(s, "<-chan", "recvchan")
+	s = strings.ReplaceAll(s, "chan<-", "sendchan")
 	return sanitize(s)
 }
 
